@@ -44,6 +44,7 @@ def run(tier):
                         nontrivial=lambda b: any(s["op"] == "compact" for s in b["steps"]))
     c.sample({"behaviour_ops": [s["op"] for s in beh[0]["steps"]], "first_request": beh[0]["steps"][0].get("req")})
 
+    exact_fit_leg(c, sc)
     sm_common.tv_traces(c, sc, 3 if quick else 40, 70 if quick else 250)
     c.assumptions += [
         "stop point = clean stop (700 ms settle: all acknowledged writes reached the OS); crash points are C04",
@@ -59,6 +60,39 @@ def run(tier):
              "sequences) is compared with the spec and at every restart with the dump taken before the stop; plus "
              "seeded random histories with compactions and restarts validated by TLC; non-trivial = contains a compaction",
         checker_cmd="tools/vcheck C01 --tier %s" % tier)
+
+
+def exact_fit_leg(c, sc):
+    """thin case of the log file layout: the applied records end EXACTLY at the pre-allocated end of the log file
+    (16 x 65 280 bytes fill the 1 MiB file behind its 4 KiB index area), with and without one more record; the state
+    served after a restart must be the state served before it (real vs real)"""
+    for n_rec in (15, 16, 17):
+        d = os.path.join(sc, "fit_%d" % n_rec)
+        os.makedirs(d)
+        node = vlib.MiniNode(d)
+        for i in range(1, n_rec + 1):
+            e = {"index": i, "term": 1, "id": 500 + i, "sz": 1, "unit": 65280}
+            for op in ("append", "apply_sized"):
+                r = node.call(dict(e, op=op))
+                if r.get("res") != "ok":
+                    node.kill()
+                    raise ToolError("exact-fit leg: %s of record %d failed: %s" % (op, i, r))
+        before = node.call({"op": "dump"})
+        node.stop()
+        node = vlib.MiniNode(d)
+        after = node.call({"op": "dump"})
+        st = node.call({"op": "initial_state"})
+        node.kill()
+        c.count(1, [{"exact_fit_records": n_rec}])
+        c.traces(1)
+        if before.get("dump") != after.get("dump") or st.get("last_log_index") != n_rec:
+            lost = sorted(set(before["dump"]["cfg"]) - set(after["dump"]["cfg"]))
+            c.violation("C01:restart_loses_state@log_file_exact_fit",
+                        "after %d records of 65 280 bytes (the log file is %s) and a clean restart the node serves a different "
+                        "state: %d of %d configs missing (%s ...), last log index %s" %
+                        (n_rec, "exactly full" if n_rec == 16 else "not exactly full", len(lost), len(before["dump"]["cfg"]), lost[:3],
+                         st.get("last_log_index")),
+                        {"records": n_rec, "unit": 65280, "missing": lost, "initial_state": st})
 
 
 def replay(path):
